@@ -26,6 +26,14 @@ res = json.load(open(mpath)) if os.path.exists(mpath) and len(sys.argv) > 1 else
 env = dict(os.environ, QLINT_REPO=WT, QLINT_OUT=OUT, QLINT_EVIDENCE_DIR=os.path.join(OUT, "evidence"))
 # the shared target dir keeps dependency artefacts; reuse the main one's dependencies by copying once
 os.makedirs(OUT, exist_ok=True)
+# run from a snapshot of the machinery so that rule edits made while the matrix runs cannot mix versions
+SNAP = OUT + "-snap"
+shutil.rmtree(SNAP, ignore_errors=True)
+os.makedirs(SNAP)
+for x in ("check", "known_findings.json"):
+    shutil.copy2(os.path.join(V, x), os.path.join(SNAP, x))
+for x in ("engine", "rules"):
+    shutil.copytree(os.path.join(V, x), os.path.join(SNAP, x), ignore=shutil.ignore_patterns("__pycache__", "debug", "incremental"))
 try:
     for (name, patch, kind) in items:
         t0 = time.time()
@@ -36,7 +44,7 @@ try:
             print(name, "PATCH FAILED"); continue
         hits = {}
         # one process for all checks: the fact base is extracted and loaded once
-        r = sh("cd %s && ./check all --tier quick" % V, env=env)
+        r = sh("cd %s && ./check all --tier quick" % SNAP, env=env)
         cur = []
         for line in r.stdout.splitlines():
             m = re.match(r"^  violated (.*)$", line)
@@ -57,6 +65,7 @@ finally:
     sh("git -C /repo worktree remove --force %s" % WT)
     shutil.rmtree(os.path.join(OUT, "target-default"), ignore_errors=True)
     shutil.rmtree(OUT, ignore_errors=True)
+    shutil.rmtree(SNAP, ignore_errors=True)
 with open(os.path.join(V, "seeded", "MATRIX.md"), "w") as f:
     f.write("# Detection matrix (seeded changes from independent sub-agents + synthetic self-test mutations)\n\n")
     f.write("| change | kind | seeded for | caught by (rule keys) |\n|---|---|---|---|\n")
